@@ -11,9 +11,9 @@ LEAN_MODULES = ["Ebv.Props.C13"]
 MODEL_MODULES = ["Ebv.Model.Roundtrip"]
 DRIVER = "Drivers/C13.lean"
 THEOREMS = [
-    "Ebv.C13.encode_layout", "Ebv.C13.encode_general", "Ebv.C13.decode_encode", "Ebv.C13.decode_echo",
-    "Ebv.C13.unpack_pack", "Ebv.C13.raw_tail", "Ebv.C13.raw_tail_empty", "Ebv.C13.fullFmt_eq",
-    "Ebv.C13.encode_length",
+    "Ebv.C13.encode_layout", "Ebv.C13.encode_general", "Ebv.C13.encode_length", "Ebv.C13.fullFmt_eq",
+    "Ebv.C13.packAll_append", "Ebv.C13.decode_encode", "Ebv.C13.decode_echo", "Ebv.C13.unpack_pack",
+    "Ebv.C13.echoAll_noStr", "Ebv.C13.decode_raw_only", "Ebv.C13.raw_tail", "Ebv.C13.raw_tail_empty",
 ]
 TRUSTED = ["hand-written model Ebv.Roundtrip of the payload/response handling in EtherCat.roundtrip, tied by exact "
            "payload/result correspondence",
